@@ -169,9 +169,17 @@ def run_chunk(chunk, ctx):
             state["truth"].append(c)
             if c == "fatal":
                 raise CParsingError("Error: Unrecognized line (stub)")
+            # the two ways the real analysis hands a diagnostic over: a pre-built Error (the lexer) or through the Context
+            # helpers (the rules); solver-chosen once per run
+            route = state.get("route")
             for j, l in enumerate(levels):
-                context.file.errors.add(Error("TOO_MANY_LINES", "Function has more than 25 lines", level=l,
-                                              highlights=[Highlight(1 + j, 1)]))
+                if route == 1:
+                    from norminette.lexer.tokens import Token
+                    tok = Token("IDENTIFIER", (1 + j, 1), "x")
+                    (context.new_error if l == "Error" else context.new_warning)("TOO_MANY_LINES", tok)
+                else:
+                    context.file.errors.add(Error("TOO_MANY_LINES", "Function has more than 25 lines", level=l,
+                                                  highlights=[Highlight(1 + j, 1)]))
 
     def classify(i):
         """solver-chosen class of file i (forks); the diagnostics' levels stay symbolic objects"""
@@ -192,7 +200,7 @@ def run_chunk(chunk, ctx):
 
     def body():
         cur.clear()
-        state.update(truth=[], k=0, order=[])
+        state.update(truth=[], k=0, order=[], route=(core.choose("route", 2) if n else 0))
         out = io.StringIO()
         code = None
         exc = None
@@ -247,16 +255,32 @@ def run_chunk(chunk, ctx):
 
 # ---------------------------------------------------------------------------------------------- native replay (real CLI)
 CLEAN_BODY = "\nint\tmain(void)\n{\n\treturn (0);\n}\n"
+# a notice-only file exists in two kinds: the notice comes from a rule (Context.new_warning) or from the lexer (a pre-built
+# Error handed to Errors.add); the stubbed analysis stands for both, so a counterexample is replayed on both
+NOTICE_VARIANTS = ["\nstatic int\tg_x = 0;\n" + CLEAN_BODY,
+                   "\nint\tmain(void)\n{\n\tchar\tc;\n\n\tc = '\\q';\n\treturn (c);\n}\n"]
 SAMPLES = {
     "clean": CLEAN_BODY,
-    "notice": "\nstatic int\tg_x = 0;\n" + CLEAN_BODY,
+    "notice": NOTICE_VARIANTS[0],
     "error": "\nint\tmain(void)\n{\n\treturn 0;\n}\n",
     "fatal": "\nint\tmain(void)\n{\n\treturn (0);\n}\n\n] ] ]\n",
 }
 
 
 def replay(case):
+    if "notice" not in case["classes"]:
+        return replay_variant(case, 0)
+    out = None
+    for k in range(len(NOTICE_VARIANTS)):
+        r = replay_variant(case, k)
+        if out is None or (r["violations"] and not out["violations"]):
+            out = r
+    return out
+
+
+def replay_variant(case, notice_variant):
     from harness.families import HEADER_TMPL
+    samples = dict(SAMPLES, notice=NOTICE_VARIANTS[notice_variant])
     classes, fmt, how = case["classes"], case["fmt"], case["how"]
     tmp = tempfile.mkdtemp(prefix="nverif-")
     try:
@@ -274,7 +298,7 @@ def replay(case):
             import glob
             order = [os.path.basename(p) for p in glob.glob(tmp + "/**/*.[ch]", recursive=True)]
         for b, c in zip(order, classes):
-            open(os.path.join(tmp, b), "w").write(HEADER_TMPL.format(file=b) + "\n" + SAMPLES[c])
+            open(os.path.join(tmp, b), "w").write(HEADER_TMPL.format(file=b) + "\n" + samples[c])
         paths = [os.path.join(tmp, b) for b in names]
         args = ["/venv/bin/python", "-m", "norminette", "--no-colors", "-f", fmt]
         cwd = tmp
